@@ -1059,7 +1059,7 @@ func (c *compiler) compileFunc(e *Func) error {
 			[3]any{fn.callback, len(e.Args), e.Name},
 			e.Args,
 			true,
-			-1,
+			0, // the arguments are values, not paths
 		); err != nil {
 			return err
 		}
